@@ -320,6 +320,28 @@ pub fn run(c: &Ctx) {
         c.class("protocol-table");
         c.judge("single", &p, check_single(&p));
     }
+    // characters that are separators or special elsewhere but ordinary name characters here (backslash, drive-letter
+    // colon, white space, '*', '?'): every string / ordered pair over this second alphabet up to length 3
+    {
+        let alt: &[&str] = &["/", "\\", "a", " ", "*", "?", "C:"];
+        let strs = all_strings(alt, 3);
+        for p in &strs {
+            c.eval(1);
+            c.nontrivial(fp(&("alt-single", p)));
+            c.class("second-alphabet:ordinary-here-special-elsewhere");
+            c.judge("single", p, check_single(p));
+        }
+        let m = strs.len() as u64;
+        par_for(m * m, 1024, |i| {
+            let (s, p) = (&strs[(i / m) as usize], &strs[(i % m) as usize]);
+            mark("pair", s);
+            c.eval(1);
+            if i % 16 == 0 {
+                c.nontrivial(fp(&("alt-pair", s, p)));
+            }
+            c.judge("pair", &json!([s, p]), check_pair(s, p));
+        });
+    }
     // colon lists whose entries begin or end with white space of any kind (an entry is listed verbatim)
     for p in ["/a:/b ", "/a: ", "/a:/b\n", " /a:/b", "/a:/b\t", "/a :/b", "\u{a0}", "/a:\u{3000}", "/a:/b\r\n", " ", ":: ", "/a:\n"] {
         c.eval(1);
